@@ -151,13 +151,18 @@ def sentinel(ctx, inst, rets, errs, where):
     """the address compared with stack_top on the finish path == the address the success path loads from"""
     ck, facts = ctx.check, ctx.facts
     cmp_addr = None
+    from .. import hmodel as H
     for o in rets + errs:
         for t, op, val in o.path.conds:
             if t[0] == "bin" and t[1] in ("Eq", "Ne"):
-                for x, y in ((t[2], t[3]), (t[3], t[2])):
-                    y = U.strip(y)
-                    if y[0] == "field" and y[2] == "stack_top":
-                        cmp_addr = affine(facts, x)
+                # any spelling of `address == stack_top`: lhs - rhs is  +-(reg + k - stack_top)
+                d = U.affine_norm(("bin", "Sub", t[2], t[3], 64))
+                tops = [l for l in d[0] if U.strip(l)[0] == "field" and U.strip(l)[2] == "stack_top"]
+                regs = [l for l in d[0] if U.strip(l)[0] == "reg" and U.strip(l)[1] == 64]
+                if len(tops) == 1 and len(regs) == 1 and len(d[0]) == 2 and d[0][tops[0]] == -d[0][regs[0]] and abs(d[0][regs[0]]) == 1:
+                    k = signed64(d[1]) * d[0][regs[0]]
+                    r = U.strip(regs[0])
+                    cmp_addr = (U.reg_name(facts, r[2]), k, r[3])
     load = None
     for o in rets:
         for e in o.path.events:
